@@ -82,6 +82,7 @@ type ep struct {
 	// header block when prompt is set; otherwise the endpoint behaves as if its blocks were already in flight
 	prompt       bool
 	pendingTable int
+	queuedAtLowering bool // the relay had frames queued towards this endpoint when it last lowered its MAX_FRAME_SIZE
 }
 
 func newEp(name string, c *simnet.Conn) *ep {
@@ -362,6 +363,22 @@ func (y *sys) stop() {
 	}
 }
 
+// noteQueuedAtLowering is called right before e lowers its SETTINGS_MAX_FRAME_SIZE to v: it records whether the relay
+// holds queued frames towards e at that moment (the known finding concerns exactly those frames, nothing sent later).
+func (y *sys) noteQueuedAtLowering(e *ep, v int) {
+	if v >= e.maxFrame {
+		return
+	}
+	r := y.relayTo(e)
+	r.flowMu.Lock()
+	for _, ob := range r.outputBuffers {
+		if ob.queue.Len() > 0 {
+			e.queuedAtLowering = true
+		}
+	}
+	r.flowMu.Unlock()
+}
+
 func (y *sys) other(e *ep) *ep {
 	if e == y.c {
 		return y.s
@@ -412,8 +429,9 @@ func (y *sys) oracle(ev string) bool {
 		for _, f := range frames {
 			if f.length > e.maxFrame && (y.focus == "C09" || f.length > e.maxFrameEver) {
 				sig := "frame-exceeds-max-frame-size"
-				if f.length <= e.maxFrameEver {
-					// the frame was cut to the limit in force when the relay accepted it and queued; the receiver lowered its limit since
+				if f.length <= e.maxFrameEver && e.queuedAtLowering {
+					// the frame was cut to the limit in force when the relay accepted it and queued; the receiver lowered its
+					// limit since (only possible if something was waiting in the relay's queues towards e when it did so)
 					sig = "frame-exceeds-max-frame-size/queued-before-the-limit-was-lowered"
 				}
 				if y.focus == "C10" {
@@ -1273,11 +1291,13 @@ func frameSizeScenario(x *explore.X, depth int) {
 			mf := mf
 			if mf != b.maxFrame {
 				evs = append(evs, event{fmt.Sprintf("B:SETTINGS(MAX_FRAME_SIZE=%d)", mf), func() {
+					y.noteQueuedAtLowering(b, mf)
 					b.sendSettings(http2.Setting{ID: http2.SettingMaxFrameSize, Val: uint32(mf)})
 				}})
 			}
 			if mf != a.maxFrame {
 				evs = append(evs, event{fmt.Sprintf("A:SETTINGS(MAX_FRAME_SIZE=%d)", mf), func() {
+					y.noteQueuedAtLowering(a, mf)
 					a.sendSettings(http2.Setting{ID: http2.SettingMaxFrameSize, Val: uint32(mf)})
 				}})
 			}
